@@ -222,6 +222,14 @@ def run(chk):
     if ca:
         ok = abs(ca["density_times_volume"] / ca["expected"] - 1) < 1e-6
         led.record("units@chgcar.load::density-is-the-file-value-divided-by-the-cell-volume-(any-cell-shape)", "post", "discharged" if ok else "refuted", "symrun", 0.0, detail=str(ca), witness=ca)
+    ns = rep.get("poscar_negative_scale")
+    if ns:
+        ok = "error" not in ns and abs(ns["cell_edge_in_angstrom"] / ns["expected"] - 1) < 1e-6
+        led.record("units@poscar.load::a-negative-scaling-factor-is-the-cell-volume-in-cubic-angstrom", "post", "discharged" if ok else "refuted", "symrun", 0.0, detail=str(ns), witness=ns)
+    gu = rep.get("gaussianinput_units_au")
+    if gu:
+        ok = "error" not in gu and abs(gu["bond_in_bohr"] / gu["expected"] - 1) < 1e-9
+        led.record("units@gaussianinput.load::units=au-in-the-route-section-means-coordinates-in-bohr", "post", "discharged" if ok else "refuted", "symrun", 0.0, detail=str(gu), witness=gu)
     for key in ("gro_crafted_error", "chgcar_crafted_error", "json_crafted_error", "extxyz_crafted_error"):
         if key in rep:
             led.record(f"units@probe::{key}", "cover", "unknown", "symrun", 0.0, detail=rep[key])
